@@ -32,6 +32,9 @@ type c17FileSpec struct {
 	HoldOn  string `json:"hold_on"` // "" | enter | done : verdict held until the k-th chunk entered / finished its frame
 	HoldK   int    `json:"hold_k"`
 	Pattern string `json:"report_pattern,omitempty"` // bitmap-byte-boundary family (c17bounds.go) only
+	// ShortSource: the source file is one byte shorter on disk than the manifest
+	// says (it shrank after the scan): the read of its last chunk fails
+	ShortSource bool `json:"short_source,omitempty"`
 }
 
 type c17Trace struct {
@@ -314,6 +317,9 @@ func c17RunTrace(e *Env, lp *vk.ListenerPool, tr c17Trace) (res c17TraceResult) 
 		buf := make([]byte, size)
 		vk.FillContent(tr.Seed, rel, 0, buf)
 		p := filepath.Join(dir, rel)
+		if fs.ShortSource && size > 0 {
+			buf = buf[:size-1]
+		}
 		if err := os.WriteFile(p, buf, 0644); err != nil {
 			res.Setup = err.Error()
 			return
@@ -710,7 +716,7 @@ func c17Judge(rec *c17FileRec, wire *c17Wire, completed bool) (finds []c17Findin
 				if verified && s > rSeq {
 					continue
 				}
-				if j < len(A[i]) && A[i][j] > e0 && s < e0 {
+				if (j >= len(A[i]) || A[i][j] > e0) && s < e0 {
 					add("fileend:chunks-in-flight", fmt.Sprintf("end-of-file record emitted before the frame of handed-out chunk %d was written", i))
 				}
 			}
@@ -783,6 +789,21 @@ func c17PartA(e *Env) {
 	traces := c17GenTraces(e, n)
 	// second family: chunk counts on / next to the byte boundaries of the resume bitmap (c17bounds.go)
 	traces = append(traces, c17GenBoundaryTraces(e, e.Pick(300, 1500), n)...)
+	// a source file that shrank after the scan: the read of its last chunk fails
+	// while the control stream is healthy (no end-of-file record may follow)
+	{
+		rs := vk.NewRng(vk.Mix(e.Seed ^ vk.HashStr("c17short"+e.Tier)))
+		base := len(traces)
+		for k := 0; k < e.Pick(60, 300); k++ {
+			tr := c17Trace{ID: base + k, Class: "source-short-read", Streams: 1 + rs.Intn(3), CS: []uint32{16, 64, 1000}[rs.Intn(3)], Seed: rs.U64()}
+			nf := 1 + rs.Intn(2)
+			for f := 0; f < nf; f++ {
+				n := 1 + rs.Intn(6)
+				tr.Files = append(tr.Files, c17FileSpec{In: c17In{N: n, V: n, Verify: "off"}, Timing: "never", ShortSource: f == 0})
+			}
+			traces = append(traces, tr)
+		}
+	}
 	bobs := newC17BoundaryObs()
 	lp, err := vk.NewListenerPool(16, 8*time.Second)
 	if err != nil {
